@@ -337,7 +337,8 @@ MANIFEST_TEXT = {
              "Ready; pause left only through the elapsed duration or a 100%% last step; next step/completion only from StepReady), and a paused rollout writes nothing and keeps its "
              "cursor. The Gallina reconcile is compared with the real RolloutReconciler.Reconcile on generated states on every run; the gating boolean is evaluated on the real result.",
         note="Single-reconcile theorems over arbitrary persisted states (so they hold across restarts between any two writes); the history-level statement with ghost variables is "
-             "not built. Canary strategy over CloneSet without traffic routing; blue-green manager not modelled.",
+             "not built. Canary and blue-green strategies over a CloneSet without traffic routing (the blue-green reconcile has its own model, theorems "
+             "C02_bluegreen_steps_are_gated / C02_bluegreen_manual_pause_waits and engine rolloutbg: no pause, the last one included, is left without its duration elapsing).",
         design_ref="DESIGN.md section 9, C02"),
     "C09": dict(
         text="Proof (controller half): for every Rollout status satisfying the controller's own invariants and EVERY integer nextStepIndex the Rollout reconcile model does not panic; "
@@ -346,7 +347,7 @@ MANIFEST_TEXT = {
         note="Validation half: a model of validateRollout / validateRolloutUpdate (v1beta1) and of the v1alpha1 update rules is proved to admit only non-empty plans whose steps are "
              "pairwise ordered per type, one Rollout per workload, and no change of workload reference, traffic routing, style or step count while Progressing or Terminating; it is "
              "compared with the real handler on every run. This found and repaired F13 (decreasing steps separated by a step of the other type) and F16 (step count changeable "
-             "through v1alpha1). Blue-green reconciles are not in the no-panic model (seed S-C09-1 is missed); F17 is a panic inside the admission handler, recovered by net/http.",
+             "through v1alpha1). Blue-green reconciles have their own no-panic theorem and engine (rolloutbg); F17 is a panic inside the admission handler, recovered by net/http.",
         design_ref="DESIGN.md section 9, C09"),
     "C10": dict(
         text="Proof (dispatch layer): a direct rollback switches the reconcile to Cancelling without touching the BatchRelease, the cancellation order starts with "
@@ -433,8 +434,10 @@ MANIFEST_TEXT = {
     "C18": dict(
         text="Proof: the Rollout controller drops its finalizer only when the Terminating condition already reports Completed, the BatchRelease controller only for a deleting "
              "object in phase Completed (which C11 ties to a successful Finalize), the TrafficRouting controller only in a reconcile of a deleting object whose traffic cleanup "
-             "completed without error (the canary route is gone when the finalizer goes) -- and that controller does drop it once the gateway is restored and the grace waits are "
-             "over. The three reconcile models are compared with the real reconcilers on deleting objects in every phase.",
+             "completed without error (the canary route is gone when the finalizer goes). Conversely, for each of the three controllers: once the cleanup is recorded as complete "
+             "the next reconcile drops the finalizer (deletion_not_blocked), and every reconcile of a deleting object that keeps the finalizer fails, asks for a requeue or "
+             "moves its own recorded status (teardown_never_stalls). The three reconcile models are compared with the real reconcilers on deleting objects in every phase and "
+             "the same clauses are evaluated on the real results, vanished objects included.",
         note="The TrafficRouting controller model found F7 (finalizer removed before the cleanup ran), repaired in /repo. Faults between teardown calls are covered as 'any "
              "persisted state' plus one injected gateway error, not as an error at every API call.",
         design_ref="DESIGN.md section 9, C18"),
